@@ -1,5 +1,58 @@
-From HT Require Import Base.Prelude World.World.
-(* placeholder: replaced when the world-level theorems land *)
-Theorem C20_failed_tx_unchanged : forall w o e, exec w o = Err e -> step w o = w.
-Proof. intros w o e H. unfold step. now rewrite H. Qed.
-Print Assumptions C20_failed_tx_unchanged.
+(* C20 — Liquidity can always be withdrawn.
+   For any world state (whatever other actors did before: the statement quantifies over the state),
+   a holder of LP tokens can withdraw any amount a up to their balance whose pro-rata entitlement is at
+   least r_i/10^18 + 2 units of each asset.  Hypotheses that stand for the reachability invariants
+   (DESIGN.md Appendix B, WF): the LP token exists and is neither pool asset, the two pool assets
+   differ, the asset tokens exist, balances are 128-bit (E-supply: per-asset totals < 2^128, which
+   bounds both the reserves and any credit), the holder's balance is part of the supply.
+   PARTIAL: that these hypotheses hold in every reachable world is argued in DESIGN.md (creation sets
+   them up, no operation breaks them) and monitored on the real contracts, not proved over run. *)
+From HT Require Import Base.Prelude Num.Arith Amm.Formulas Amm.Guards World.World
+  Proofs.LiquidityProofs Proofs.LedgerProofs Proofs.LivenessProofs.
+
+(* the entitlement condition forces each refund to be at least 2 units, so no zero transfer can abort it *)
+Theorem C20_refund_positive : forall r a T x,
+  T <> 0 -> x = r * (a * D / T) / D -> r * T + 2 * T * D <= r * a * D -> 2 <= x.
+Proof. exact entitled_refund_positive. Qed.
+
+(* the handler cannot fail once the LP tokens have arrived at the pair *)
+Theorem C20_handler : forall w p ps sender a lt,
+  w_tokens w (p_lp ps) = Some lt ->
+  1 <= a -> a <= t_supply lt -> a <= t_bal lt p ->
+  asset_eqb (p_a0 ps) (p_a1 ps) = false ->
+  asset_eqb (p_a0 ps) (AToken (p_lp ps)) = false -> asset_eqb (p_a1 ps) (AToken (p_lp ps)) = false ->
+  sender <> p ->
+  (forall t, p_a0 ps = AToken t \/ p_a1 ps = AToken t -> w_tokens w t <> None) ->
+  bal w (p_a0 ps) p < W128 -> bal w (p_a1 ps) p < W128 ->
+  bal w (p_a0 ps) sender + bal w (p_a0 ps) p < W128 ->
+  bal w (p_a1 ps) sender + bal w (p_a1 ps) p < W128 ->
+  bal w (p_a0 ps) p * t_supply lt + 2 * t_supply lt * D <= bal w (p_a0 ps) p * a * D ->
+  bal w (p_a1 ps) p * t_supply lt + 2 * t_supply lt * D <= bal w (p_a1 ps) p * a * D ->
+  exists w', pair_withdraw w p ps sender a = Ok w'.
+Proof. exact pair_withdraw_succeeds. Qed.
+
+(* the whole transaction: cw20 Send of a LP tokens to the pair with the WithdrawLiquidity hook *)
+Theorem C20 : forall w p ps holder a lt,
+  w_pairs w p = Some ps -> w_tokens w (p_lp ps) = Some lt ->
+  holder <> p -> 1 <= a -> a <= t_bal lt holder -> t_bal lt holder <= t_supply lt ->
+  t_bal lt p + a < W128 ->
+  asset_eqb (p_a0 ps) (p_a1 ps) = false ->
+  asset_eqb (p_a0 ps) (AToken (p_lp ps)) = false -> asset_eqb (p_a1 ps) (AToken (p_lp ps)) = false ->
+  (forall t, p_a0 ps = AToken t \/ p_a1 ps = AToken t -> w_tokens w t <> None) ->
+  bal w (p_a0 ps) p < W128 -> bal w (p_a1 ps) p < W128 ->
+  bal w (p_a0 ps) holder + bal w (p_a0 ps) p < W128 ->
+  bal w (p_a1 ps) holder + bal w (p_a1 ps) p < W128 ->
+  bal w (p_a0 ps) p * t_supply lt + 2 * t_supply lt * D <= bal w (p_a0 ps) p * a * D ->
+  bal w (p_a1 ps) p * t_supply lt + 2 * t_supply lt * D <= bal w (p_a1 ps) p * a * D ->
+  exists w', cw20_send w (p_lp ps) holder p a HWithdraw = Ok w'.
+Proof. exact withdraw_tx_succeeds. Qed.
+
+(* the arithmetic can never abort for 1 <= a <= T *)
+Theorem C20_arithmetic_total : forall r0 r1 a T : N,
+  r0 < W128 -> r1 < W128 -> T <> 0 -> a <= T -> exists x0 x1, withdraw_amounts r0 r1 a T = Ok (x0, x1).
+Proof. exact withdraw_total. Qed.
+
+Print Assumptions C20_refund_positive.
+Print Assumptions C20_handler.
+Print Assumptions C20.
+Print Assumptions C20_arithmetic_total.
